@@ -34,10 +34,10 @@ COMPONENTS = {
 
 # which oracles decide which property
 OWNS = {
-    "C02": {"L2", "L2E"},
+    "C02": {"L2", "L2E"},   # (family units in the C02 workload contribute schedules; their model findings belong to C10)
     "C03": {"M1", "M2", "M3", "M4", "M4F", "M4L", "M5", "M5U", "F1M"},
     "C04": {"P7", "P5"},
-    "C10": {"P1", "P2", "P2Z", "P3", "P4", "P5", "P6", "P8", "F1", "F2", "SD"},
+    "C10": {"P1", "P2", "P2Z", "P3", "P4", "P5", "P6", "P8", "F1", "F2", "F5", "SD"},
     "C12": {"L4"},
     "C17": {"L2E", "P8", "F3", "F4", "F1E", "P2E"},
     "C20": {"L4", "L4V"},
@@ -163,9 +163,14 @@ def full_string_appended_in_oos_try_body(f):
             continue
         if c.group(2) is not None and "outofspace" not in c.group(2):
             continue
+        handler, _ = _block_after(src, end + c.end())
         for n in names:
-            if re.search(r"\b%s\s*\+=" % re.escape(n), body):
-                return True
+            if not re.search(r"\b%s\s*\+=" % re.escape(n), body):
+                continue
+            # a handler that empties the full string makes room: on the recorded tree that never spins
+            if handler is not None and re.search(r"\bdelete\s+%s\b" % re.escape(n), handler):
+                continue
+            return True
     return False
 
 
@@ -373,6 +378,9 @@ def replay(prop, path, tree, workdir):
     """Re-executes a replay file against the current tree; exit 1 iff the same class reappears."""
     doc = json.load(open(path))
     doc["_path"] = path
+    if doc.get("kind_of_replay") == "twin":
+        from . import twins
+        return twins.replay(prop, doc, tree, workdir)
     if doc.get("kind_of_replay") == "replicas":
         from . import replicas
         return replicas.replay(prop, doc, tree, workdir)
@@ -405,7 +413,7 @@ def aggregate(results):
            "ticks": 0, "fired": {}, "crashes": 0, "eof_checked": 0, "post_terminal_calls": 0, "yield_reentries": 0,
            "calls_compared": 0, "states_total": 0, "states_cut": 0, "states_seen": 0, "fail_then_call": 0, "zero_len": 0,
            "end_after_fail": 0, "zero_after_fail": 0, "exhaustive_inputs": 0, "slow": 0, "spin": 0, "yields_seen": 0,
-           "terminals": {}, "retail": 0, "canon_unusable": 0}
+           "terminals": {}, "retail": 0, "canon_unusable": 0, "guards_total": 0, "guards_hit": 0, "model_checked": 0, "twins_compared": 0}
     nontrivial = set()
     for r in results:
         agg["status"][r["status"]] = agg["status"].get(r["status"], 0) + 1
@@ -460,7 +468,10 @@ def finish_check(prop, tier, root, results, t0, tree, workdir, level_text, rule,
         fs.sort(key=lambda f: (len(f["ctx"]["script"]), len(f["ctx"]["source"])))
         f = fs[0]
         extra = {"canaries": f.get("_canaries"), "occurrences": len(fs)}
-        if "replicas" in f["ctx"] or "envs" in f["ctx"]:
+        if "twin_argv" in f["ctx"]:
+            ctx_min, ok = f["ctx"], None
+            extra.update({"kind_of_replay": "twin", "twin_argv": f["ctx"]["twin_argv"]})
+        elif "replicas" in f["ctx"] or "envs" in f["ctx"]:
             # replica disagreements are replayed by re-running every recorded replica
             ctx_min, ok = f["ctx"], None
             extra.update({"kind_of_replay": "replicas", "replicas": f["ctx"].get("replicas"), "envs": f["ctx"].get("envs"),
@@ -491,6 +502,9 @@ def finish_check(prop, tier, root, results, t0, tree, workdir, level_text, rule,
                                        "retail", "spin", "slow", "crashes", "canon_unusable")},
         "terminal_codes_seen": agg["terminals"],
         "machine_states": {"total": agg["states_total"], "visited": agg["states_seen"], "with_a_cut_on_them": agg["states_cut"]},
+        "generated_code_edges": {"total": agg["guards_total"], "executed": agg["guards_hit"]},
+        "canonical_traces_checked_against_a_reference_model": agg["model_checked"],
+        "strict_done_twins_compared": agg["twins_compared"],
         "units": agg["status"],
         "components": COMPONENTS,
         "findings_owned_by_other_properties": other,
